@@ -930,3 +930,68 @@ Section WRunAll2.
 End WRunAll2.
 
 Print Assumptions wiso_detectors.
+
+(* ====================================================================== non-vacuity *)
+From Tealer Require Import MoveSubLemmas IsoEx MoveSubEx IsoWeakEx.
+
+(* the domain equalities are strictly weaker than Leibniz equality, the orders are not trivial *)
+Example wlaws_nonvacuous :
+  zset_eqb (zunion [1%Z] [2%Z]) (zunion [2%Z] [1%Z]) = true /\ zunion [1%Z] [2%Z] <> zunion [2%Z] [1%Z] /\
+  sset_seteqb ["b"; "a"] ["a"; "b"] = true /\
+  fee_rleq fee_null_set (mkFee true MAX_UINT64z) /\ ~ fee_rleq (mkFee true MAX_UINT64z) fee_null_set /\
+  addr_leq addr_null_set [] /\ ~ addr_leq [] addr_null_set /\
+  addr_leq ["a"] addr_universal_set /\ ~ addr_leq addr_universal_set ["a"].
+Proof.
+  split; [vm_compute; reflexivity|]. split; [vm_compute; intros H; discriminate H|].
+  split; [vm_compute; reflexivity|]. split; [vm_compute; intros H; discriminate H|].
+  split; [vm_compute; intros H; apply H; reflexivity|].
+  split; [apply (wl_null_least _ _ _ _ _ _ _ addr_wlaws); right; right; intros x []|].
+  split; [intros [H _]; specialize (H eq_refl); discriminate H|].
+  split.
+  - split; [intros _; reflexivity|]. split; [intros _; reflexivity|]. intros x [Hm _]. split; [exact Hm|left; reflexivity].
+  - intros [_ [H _]]. specialize (H eq_refl). discriminate H.
+Qed.
+
+(* two different contexts that are ctx_equiv; a predicate that reads the ORDER of the kinds is not invariant, so
+   ctx_inv is a real hypothesis of wiso_detector_inv (the nine predicates of the tool satisfy it) *)
+Definition ex_av : addrval := mkAddrVal false false ["a"; "b"].
+Definition ex_av' : addrval := mkAddrVal false false ["b"; "a"].
+Definition ex_ctx : bctx := mkBctx ex_av ex_av ex_av ex_av ["Pay"; "Axfer"] 5 false [1%Z; 2%Z] [0%Z] false.
+Definition ex_ctx' : bctx := mkBctx ex_av' ex_av ex_av ex_av' ["Axfer"; "Pay"] 5 false [2%Z; 1%Z; 2%Z] [0%Z] false.
+
+Example ctx_equiv_nonvacuous :
+  ctx_equiv ex_ctx ex_ctx' /\ ex_ctx <> ex_ctx' /\
+  map (fun nc => snd nc ex_ctx) detectors = map (fun nc => snd nc ex_ctx') detectors.
+Proof.
+  assert (Hav : av_equiv ex_av ex_av').
+  { constructor; try reflexivity. intros x. cbn. tauto. }
+  split; [|split; [intros H; discriminate H|vm_compute; reflexivity]].
+  constructor; try reflexivity; try exact Hav; try (constructor; try reflexivity; apply seteq_refl);
+    intros x; cbn; tauto.
+Qed.
+
+Example ctx_inv_refuted :
+  ~ ctx_inv (fun c => match ctx_transaction_types c with "Pay" :: _ => true | _ => false end).
+Proof.
+  intros H. specialize (H ex_ctx ex_ctx' (proj1 ctx_equiv_nonvacuous)). vm_compute in H. discriminate H.
+Qed.
+
+(* the pair of IsoWeakEx (rejected by the in-order check): all hypotheses hold, so the results are res_equiv, and all
+   nine detectors return the renamed paths at every search fuel -- now a consequence of the theorem, not computed *)
+Example m3w_res_equiv : res_equiv (ren_result m3_r m3_res) m3_res'.
+Proof.
+  exact (wiso_run_all m3_r m3_g m3_f m3_f' m3w_fiso_w (proj2 (proj2 (proj2 (proj2 m3w_accepted)))) 200 200
+           m3_res m3_res' (proj1 m3w_verdicts) (proj1 (proj2 m3w_verdicts))).
+Qed.
+
+Example m3w_detectors_all fuel name checks :
+  In (name, checks) detectors ->
+  run_detector m3_f' m3_res' fuel name checks = omap (ren_paths m3_r) (run_detector m3_f m3_res fuel name checks).
+Proof.
+  exact (wiso_detectors m3_r m3_g m3_f m3_f' m3w_fiso_w (proj2 (proj2 (proj2 (proj2 m3w_accepted)))) 200 200
+           m3_res m3_res' fuel name checks (proj1 m3w_verdicts) (proj1 (proj2 m3w_verdicts))).
+Qed.
+
+Print Assumptions wlaws_nonvacuous.
+Print Assumptions ctx_equiv_nonvacuous.
+Print Assumptions m3w_detectors_all.
